@@ -196,6 +196,9 @@ func (b *recBlock) Get(d digest.Digest, offsetBytes, sizeBytes int64, cb buffer.
 	b.a.env.c.Logf("block #%d Get off=%d size=%d", b.rec.ID, offsetBytes, sizeBytes)
 	b.a.env.lastGetBlock = b.rec
 	b.a.env.lastGetOff = offsetBytes
+	// (keyed by goroutine: the read buffer factory may yield before it
+	// creates the reader)
+	b.a.env.pendingGet[b.a.env.s.Cur().ID] = pendingGet{b.rec, offsetBytes}
 	return b.base.Get(d, offsetBytes, sizeBytes, cb)
 }
 
@@ -232,15 +235,22 @@ func (b *recBlock) Release() {
 
 type countingRBF struct {
 	base   blobstore.ReadBufferFactory
+	env    *storeEnv
 	Opened int
 	Closed int
 	Double int
+	Open   []*countingReaderAt // readers currently open
 }
 
 type countingReaderAt struct {
 	buffer.ReadAtCloser
 	f      *countingRBF
 	closed bool
+	Block  *blockRec
+	DevOff int64 // range on the data device
+	Size   int64
+	Snap   []byte // content of the range when the reader was opened
+	OpenedAt int
 }
 
 func (r *countingReaderAt) Close() error {
@@ -249,6 +259,12 @@ func (r *countingReaderAt) Close() error {
 	} else {
 		r.closed = true
 		r.f.Closed++
+		for i, o := range r.f.Open {
+			if o == r {
+				r.f.Open = append(r.f.Open[:i], r.f.Open[i+1:]...)
+				break
+			}
+		}
 	}
 	return r.ReadAtCloser.Close()
 }
@@ -263,7 +279,22 @@ func (f *countingRBF) NewBufferFromReader(d digest.Digest, r io.ReadCloser, cb b
 
 func (f *countingRBF) NewBufferFromReaderAt(d digest.Digest, r buffer.ReadAtCloser, sizeBytes int64, cb buffer.DataIntegrityCallback) buffer.Buffer {
 	f.Opened++
-	return f.base.NewBufferFromReaderAt(d, &countingReaderAt{ReadAtCloser: r, f: f}, sizeBytes, cb)
+	cr := &countingReaderAt{ReadAtCloser: r, f: f}
+	if e := f.env; e != nil && e.data != nil && e.pendingGet[e.s.Cur().ID].block != nil && e.pendingGet[e.s.Cur().ID].block.Loc != nil {
+		// NewBufferFromReaderAt is called from inside Block.Get(), which the
+		// recording block has just observed in this goroutine
+		pg := e.pendingGet[e.s.Cur().ID]
+		cr.Block = pg.block
+		cr.DevOff = pg.block.Loc.OffsetBytes + pg.off
+		cr.Size = sizeBytes
+		if cr.DevOff+sizeBytes > int64(len(e.data.Visible())) {
+			panic(sim.HarnessError{Msg: fmt.Sprintf("reader range out of device: block #%d loc=%v off=%d size=%d device=%d", pg.block.ID, pg.block.Loc, pg.off, sizeBytes, len(e.data.Visible()))})
+		}
+		cr.Snap = append([]byte{}, e.data.Visible()[cr.DevOff:cr.DevOff+sizeBytes]...)
+		cr.OpenedAt = e.s.Steps
+	}
+	f.Open = append(f.Open, cr)
+	return f.base.NewBufferFromReaderAt(d, cr, sizeBytes, cb)
 }
 
 // ---- program.Group owned by the harness ----
@@ -324,9 +355,15 @@ type storeEnv struct {
 	finalizeSeq            map[int]int           // goroutine id -> seq of its last block put finalizer
 	finalizeTime           map[int]time.Duration // goroutine id -> sim time of its last block put finalizer
 	lastFinalizeSeq        int
+	pendingGet             map[int]pendingGet
 	activeStateWrites      int
 	shutdownSeq            int                   // seq at which shutdown was requested (0 = not)
 	routineReturned        bool
+}
+
+type pendingGet struct {
+	block *blockRec
+	off   int64
 }
 
 // syncRound is one NotifySyncStarting … NotifySyncCompleted bracket.
@@ -425,7 +462,7 @@ func (dummyCapabilities) GetCapabilities(ctx context.Context, instanceName diges
 // the order new_blob_access.go uses (W-parts), with recording decorators.
 func buildStoreParts(c *sim.RunCtx, s *rt.Sched, cfg *storeCfg, m *media, proc int, seed int64) *storeEnv {
 	e := &storeEnv{c: c, s: s, cfg: cfg, proc: proc, data: m.data, index: m.index, dir: m.dir,
-		finalizeSeq: map[int]int{}, finalizeTime: map[int]time.Duration{}}
+		finalizeSeq: map[int]int{}, finalizeTime: map[int]time.Duration{}, pendingGet: map[int]pendingGet{}}
 	e.restore = installDetRandom(seed)
 	e.clock = sim.NewClock(s)
 	e.log = &recLogger{}
@@ -437,13 +474,15 @@ func buildStoreParts(c *sim.RunCtx, s *rt.Sched, cfg *storeCfg, m *media, proc i
 	}
 	var base local.BlockAllocator
 	if cfg.Disk {
-		e.rbf = &countingRBF{base: rbf}
-		var f blobstore.ReadBufferFactory = e.rbf
+		var f blobstore.ReadBufferFactory = rbf
 		if cfg.ValCache {
 			f = blobstore.NewValidationCachingReadBufferFactory(f,
 				digest.NewExistenceCache(e.clock, cfg.KeyFormat, 4, 1000*time.Second, eviction.NewLRUSet[string]()))
 		}
-		base = local.NewBlockDeviceBackedBlockAllocator(m.data, f, cfg.SectorSize, int64(cfg.BlockSectors), cfg.BlockCount(), "sim")
+		// the counting factory sits outermost, so that readers of buffers
+		// served from the validation cache are observed as well
+		e.rbf = &countingRBF{base: f, env: e}
+		base = local.NewBlockDeviceBackedBlockAllocator(m.data, e.rbf, cfg.SectorSize, int64(cfg.BlockSectors), cfg.BlockCount(), "sim")
 	} else {
 		base = local.NewInMemoryBlockAllocator(cfg.BlockSize())
 	}
